@@ -11,10 +11,16 @@ from .core import Ctx, AnalysisError, finish, VERIF_DIR
 ALL = ['C%02d' % i for i in range(1, 30)]
 
 
-def run_property(prop, tier, seed, repo=None, out=sys.stdout):
+def have_rule(prop):
+    return os.path.exists(os.path.join(VERIF_DIR, 'h2verif', 'rules',
+                                       prop.lower() + '.py'))
+
+
+def run_property(prop, tier, seed, repo=None, out=sys.stdout, eng=None):
     from .engine import Engine
     try:
-        eng = Engine(repo)
+        if eng is None:
+            eng = Engine(repo)
         ctx = Ctx(prop, tier, seed, eng.m)
         eng.base_counts(ctx)
         mod = importlib.import_module('h2verif.rules.%s' % prop.lower())
@@ -43,6 +49,8 @@ def main(argv=None):
     ap.add_argument('--selfcheck', action='store_true')
     ap.add_argument('--selftest', action='store_true')
     ap.add_argument('--repo')
+    ap.add_argument('--summary', action='store_true',
+                    help='with "all": one line per property')
     ap.add_argument('--jobs', type=int, default=16)
     a = ap.parse_args(argv)
     seed = int(os.environ.get('VERIF_SEED', '0') or 0)
@@ -61,22 +69,40 @@ def main(argv=None):
     if not a.prop:
         ap.error('property id required')
     if a.prop == 'all':
+        import io
+        from .engine import Engine
         rc = 0
+        try:
+            eng = Engine(a.repo)
+        except AnalysisError as e:
+            print('ANALYSIS-ERROR engine %s' % e)
+            return 2
         for p in ALL:
-            r = run_property(p, a.tier, seed, a.repo)
+            if not have_rule(p):
+                continue
+            buf = io.StringIO() if a.summary else sys.stdout
+            r = run_property(p, a.tier, seed, a.repo, out=buf, eng=eng)
+            if a.summary:
+                lines = buf.getvalue().splitlines()
+                viol = [ln for ln in lines if ln.startswith('  ') and
+                        not ln.startswith('    ')]
+                err = [ln for ln in lines if ln.startswith('ANALYSIS-ERROR')]
+                print('%s rc=%d %s' % (p, r, ' || '.join(
+                    x.strip()[:160] for x in (viol + err)[:3])))
             rc = max(rc, r)
         return rc
     rc = run_property(a.prop, a.tier, seed, a.repo)
     if a.tier == 'thorough' and rc == 0:
         try:
             from .selftest import runner
+        except ImportError:
+            runner = None
+        if runner is not None:
             rc2 = runner.main(a.prop, a.jobs, quiet=True)
             if rc2 != 0:
                 sys.stdout.write('ANALYSIS-ERROR property=%s checker '
                                  'self-test failed\n' % a.prop)
                 return 2
-        except ImportError:
-            pass
     return rc
 
 
